@@ -406,6 +406,9 @@ PAIRS = [
     ("naming a closed recursive sub-expression of a self-referential declaration",
      "let n = { 'kids (rec k [k]), 'up [n] };\nres /n on get -> <n>;\n",
      "let kids = rec k [k];\nlet n = { 'kids kids, 'up [n] };\nres /n on get -> <n>;\n"),
+    ("turning a sub-expression that applies a recursive function twice into a single-use function",
+     "let node v = rec n { 'value v, 'next? n };\nres /lists on get -> { 'ints (node int), 'strs (node str) };\n",
+     "let node v = rec n { 'value v, 'next? n };\nlet wrap z = { 'ints (node int), 'strs (node z) };\nres /lists on get -> wrap str;\n"),
     ("permuting declarations around a name used twice in positions that must agree",
      "let b = num;\nlet a = b | b;\nlet pick x y = x | y;\nlet id = str;\nres /a on get -> <a> :: <status=404, (pick id id)>;\n",
      "let a = b | b;\nlet pick x y = x | y;\nres /a on get -> <a> :: <status=404, (pick id id)>;\nlet id = str;\nlet b = num;\n"),
